@@ -93,7 +93,11 @@ def exec_distreg(plan, V, log, counters):
         lik, prior = reference()
         mag = abs(lik) + abs(prior)
         for name, got, exp in (("log_lik", model.log_lik, lik), ("log_prior", model.log_prior, prior), ("log_prob", model.log_prob, lik + prior)):
-            g = float(np.asarray(got, np.float64))
+            ga = np.asarray(got, np.float64)
+            if ga.shape != ():
+                V.add("total-equals-joint-density", f"{name}/distreg/shape", f"{where}: Model.{name} has shape {ga.shape}, a total must be a scalar")
+                continue
+            g = float(ga)
             if not abs(g - exp) <= 2e-4 * (1 + mag):
                 V.add("total-equals-joint-density", f"{name}/distreg", f"{where}: Model.{name} = {g}, reference {exp} (smooths {[(s_['name'], s_['kind'], s_.get('pen')) for s_ in plan['smooths']]})")
         counters["density_checks"] = counters.get("density_checks", 0) + 1
@@ -171,7 +175,10 @@ def shrink_candidates(plan):
 
 
 def build(spec, user):
-    b = M.construct(spec)
+    try:
+        b = M.construct(spec)
+    except Exception as e:
+        raise SutError(f"construct|{type(e).__name__}|transform|{e}") from e
     gb = b.gb
     for i, it in enumerate(spec):
         if it["k"] != "group":
